@@ -45,6 +45,7 @@ type params struct {
 	SlowTail bool          // the last byte of a response body only arrives after the environment lets it
 	RealTr   int           // >0: the client uses a real *http.Transport (the fake transport is registered for the scheme "fake") with MaxConnections(RealTr)
 	Second   bool          // a second Attack call on the same Attacker while the first is running
+	SecondN  int           // hits the second attack releases (0: its pacer stops at once)
 }
 
 func (p params) name() string {
@@ -87,6 +88,9 @@ func (p params) name() string {
 	}
 	if p.Second {
 		s += ",two-attacks"
+		if p.SecondN > 0 {
+			s += fmt.Sprintf(",second-hits=%d", p.SecondN)
+		}
 	}
 	if !p.Adv && p.Du == 0 && p.Wait != 0 {
 		s += fmt.Sprintf(",wait=%d", p.Wait)
@@ -289,7 +293,7 @@ func (w *world) main() {
 		// the same Attacker is used for a second (empty: its pacer stops at once) attack, started by
 		// another thread at any moment while the first one is running
 		w2 := &world{id: w.id, p: p, name: "atk2", parent: w}
-		w2.p.Second, w2.p.N = false, 0
+		w2.p.Second, w2.p.N = false, p.SecondN
 		w.second = w2
 		vsched.GoEnv(func() {
 			w2.began = vsched.ClockPeek()
@@ -388,7 +392,7 @@ func (w *world) invariant(s *vsched.Sched) string {
 	if s.Last.Kind == vsched.KClose && w.resultsID != 0 && s.Last.Obj == w.resultsID && w.started != n {
 		return fmt.Sprintf("C02: results channel closed while %d of %d started hits had not delivered", w.started-n, w.started)
 	}
-	if s.Last.Kind == vsched.KClose && w.resultsID != 0 && s.Last.Obj == w.resultsID {
+	if s.Last.Kind == vsched.KClose && w.resultsID != 0 && s.Last.Obj == w.resultsID && !w.p.Second {
 		// the attack is over for its caller: nothing it started may still be running (the attack goroutine
 		// itself finishes right after the close; goroutines that existed before Attack are not "of the attack")
 		for _, t := range s.AllThreads() {
@@ -518,7 +522,9 @@ func (w *world) end(s *vsched.Sched, r *vsched.Result) (string, string) {
 			return v, outcome
 		}
 	}
-	if p.Cause == "pacer" && !p.Adv && p.Du == 0 && w.started != p.N {
+	// (with two attacks on one Attacker the end of either one stops the Attacker, and so the other attack: Stop is per Attacker)
+	twoAttacks := p.Second || w.parent != nil
+	if p.Cause == "pacer" && !p.Adv && p.Du == 0 && w.started != p.N && !twoAttacks {
 		if v := fmt.Sprintf("C02: pacer released %d hits but %d started", p.N, w.started); w.own(v) {
 			return v, outcome
 		}
@@ -893,6 +899,9 @@ func c02Plans() []plan {
 	add(params{W0: 1, M: 1, N: 0, Cause: "pacer", DNS: true}, -1)
 	add(params{W0: 1, M: 1, N: 1, Cause: "tgterr", ErrAt: 0, DNS: true}, -1)
 	add(params{W0: 1, M: 1, N: 0, Cause: "stop1", DNS: true}, -1)
+	// two attacks of one Attacker running side by side, each with hits of its own: each numbers its results 0..n-1
+	add(params{W0: 1, M: 1, N: 1, Cause: "pacer", Second: true, SecondN: 1}, ev.Pick(2, -1))
+	add(params{W0: 1, M: 1, N: 2, Cause: "pacer", Second: true, SecondN: 2}, ev.Pick(1, 2))
 	if th {
 		add(params{W0: 2, M: 3, N: 4, Cause: "pacer"}, 2)
 		add(params{W0: 1, M: 2, N: 4, Cause: "stop1"}, 2)
